@@ -14,7 +14,18 @@ open AHP
 def legalAttrs (a : List Attr) : Bool := a.all (fun p => validAttrName p.1)
 
 /-- first error of `ts`, given the names of the open elements (innermost first) and whether the root
-    element exists already; `none` = accepted -/
+    element exists already; `none` = accepted.
+
+    What this reading is made of: a stack of NAMES (`List Str`) and one `Bool` — no tree, no attribute values, no
+    frames.  What it SHARES with the model (`vStepT`, Model/Builder.lean), exactly: the leaf predicates
+    `validAttrName` (through `legalAttrs`: the transliteration of `Tags.isValidAttributeName`, ASCII letters only —
+    DESIGN §7), `lower`, `isBlank`; the void list is the specification's own (`Spec.isVoid`, tied to the generated
+    table by `isVoid_eq`).  The order of the tests in each branch is the order of the property text ("attribute
+    name … whichever comes first": the attribute check precedes everything in a start tag).  Because a scan with the
+    same branch structure as the handler is only a projection of it, the DECLARATIVE reading below (`errAt`,
+    `openAfter`, `FirstError`) states the same thing without any interleaving: a context fold that knows nothing
+    about errors, a local error predicate that knows nothing about the rest of the input, and "the first position
+    where the predicate fires" — `classify_some_iff` (Lemmas/ValidateDoc.lean) proves the two readings equal. -/
 def classify : List Str → Bool → List Token → Option Exc
   | _, _, [] => none
   | open_, root, .start n a :: ts =>
@@ -39,6 +50,49 @@ def classify : List Str → Bool → List Token → Option Exc
   | open_, root, .charref _ :: ts => if open_.isEmpty then some .multipleRoot else classify open_ root ts
   | open_, root, .comment _ :: ts => if open_.isEmpty then some .multipleRoot else classify open_ root ts
   | open_, root, _ :: ts => classify open_ root ts
+
+/-! ### the declarative reading of `classify`: context fold + local error predicate + "first" -/
+
+/-- names of the open elements after an ERROR-FREE prefix (innermost first): a start tag of a non-void element
+    pushes its name, an end tag pops one name (error-free: it is the innermost).  Names only; knows nothing
+    about errors. -/
+def openAfter : List Str → List Token → List Str
+  | o, [] => o
+  | o, .start n _ :: ts => if isVoid (lower n) then openAfter o ts else openAfter (lower n :: o) ts
+  | o, .end_ _ :: ts => openAfter o.tail ts
+  | o, _ :: ts => openAfter o ts
+
+/-- has a root element been seen after the prefix -/
+def rootAfter : Bool → List Token → Bool
+  | r, [] => r
+  | _, .start _ _ :: ts => rootAfter true ts
+  | _, .startend _ _ :: ts => rootAfter true ts
+  | r, _ :: ts => rootAfter r ts
+
+/-- is THIS token in error, given the open names and whether a root exists — the property's clauses one by one:
+    a start tag carrying an illegal attribute name; an end tag that matches no open element; an end tag whose
+    matching element is not the innermost; and the several-top-level-nodes condition (a second root element, or
+    text / reference / comment outside every element) that makes the parser retry inside the wrapper. -/
+def errAt (o : List Str) (r : Bool) : Token → Option Exc
+  | .start _ a => if !legalAttrs a then some .invalidAttr else if r && o.isEmpty then some .multipleRoot else none
+  | .startend _ a => if !legalAttrs a then some .invalidAttr else if r && o.isEmpty then some .multipleRoot else none
+  | .end_ n =>
+    match o with
+    | [] => some .invalidClose
+    | m :: _ => if !o.contains n then some .invalidClose else if m ≠ n then some .missedClose else none
+  | .data d => if d.isEmpty || !o.isEmpty || isBlank d then none else some .multipleRoot
+  | .entity _ => if o.isEmpty then some .multipleRoot else none
+  | .charref _ => if o.isEmpty then some .multipleRoot else none
+  | .comment _ => if o.isEmpty then some .multipleRoot else none
+  | _ => none
+
+/-- no token of `ts` is in error in its context -/
+def Clean (o : List Str) (r : Bool) (ts : List Token) : Prop :=
+  ∀ p x q, ts = p ++ x :: q → errAt (openAfter o p) (rootAfter r p) x = none
+
+/-- `e` is the error of the FIRST token of `ts` that is in error -/
+def FirstError (o : List Str) (r : Bool) (ts : List Token) (e : Exc) : Prop :=
+  ∃ pre t post, ts = pre ++ t :: post ∧ Clean o r pre ∧ errAt (openAfter o pre) (rootAfter r pre) t = some e
 
 /-- tokens that never open or close anything -/
 def isInert : Token → Bool
